@@ -420,6 +420,7 @@ def pipeline(ctx, quick):
 def run(ctx):
     quick = ctx.tier == "quick"
     ctx.prepare("C17.v")
+    ctx.rule("regenerated from the source on every run (tools/translate_extra.py -> coq/gen/Extra.v; bridged to the model by C17_naming_constants_are_the_sources): TranscriptNaming.transcript_prefix, novel_gene_prefix, nic_transcript_suffix, nnic_transcript_suffix of src/common.py as byte lists")
     corr_naming(ctx)
     corr_distributor(ctx, quick)
     corr_storage(ctx, quick)
